@@ -166,7 +166,7 @@ def block_rotation_moves_everything(ctx, k, cornersUp, placed=False):
 #   k = -3, -5, -6, -7, -9..-14, 15 as k * math.pi / 3 (HexBlock.rotate accepts every one of them), e.g.
 #   mk_assembly(2).rotate(-3 * math.pi / 3) -> ValueError: Rotation must be in 60 degree increments, got -180.0 degrees
 # While the flag is set those k are left out of the instances; VERIF_SHOW_KNOWN_DEFECTS=1 shows the violations.
-KNOWN_DEFECT_hex_assembly_rotate_refuses_some_multiples_of_60_degrees = True
+KNOWN_DEFECT_hex_assembly_rotate_refuses_some_multiples_of_60_degrees = False  # repaired in /repo (fix: cb56896)
 _SHOW_KNOWN = os.environ.get("VERIF_SHOW_KNOWN_DEFECTS", "") != ""
 _REFUSED_K = [-3, -6] if _SHOW_KNOWN or not KNOWN_DEFECT_hex_assembly_rotate_refuses_some_multiples_of_60_degrees else []
 
